@@ -129,6 +129,7 @@ func VerifH_C15_scalar_roundtrip() {
 	case isUnsigned:
 		verifAssert(f == float64(u64), "ToFloat of an unsigned integer")
 		verifAssertK(u64 > 1<<63-1 || i == int64(u64), "C15-tointeger-uint64-via-float", u64 > 1<<53, "ToInteger of an unsigned integer that fits int64 is exact")
+		verifAssert(u64 <= 1<<63-1 || i == 1<<63-1, "ToInteger of an unsigned integer beyond int64 saturates at MaxInt64 (as the same number does as a float64), it does not wrap")
 	case isInt:
 		verifAssert(f == float64(asInt), "ToFloat of an integer")
 		verifAssert(i == asInt, "ToInteger of an integer is exact")
@@ -143,6 +144,12 @@ func VerifH_C15_scalar_roundtrip() {
 type verifNamedI8 int8
 type verifNamedU16 uint16
 type verifNamedI64 int64
+type verifNamedI16 int16
+type verifNamedI32 int32
+type verifNamedInt int
+type verifNamedU8 uint8
+type verifNamedU32 uint32
+type verifNamedUint uint
 type verifNamedU64 uint64
 type verifNamedF32 float32
 type verifNamedF64 float64
@@ -153,7 +160,7 @@ type verifNamedBool bool
 func VerifH_C15_named_kinds() {
 	vm := New()
 	var want float64
-	switch verifChoose(8) {
+	switch verifChoose(14) {
 	case 4:
 		x := verifNondetFloat32()
 		var v Value
@@ -201,6 +208,30 @@ func VerifH_C15_named_kinds() {
 	case 2:
 		x := verifNondetInt64()
 		vm.Set("v", verifNamedI64(x))
+		want = float64(x)
+	case 8:
+		x := verifNondetInt16()
+		vm.Set("v", verifNamedI16(x))
+		want = float64(x)
+	case 9:
+		x := verifNondetInt32()
+		vm.Set("v", verifNamedI32(x))
+		want = float64(x)
+	case 10:
+		x := verifNondetInt()
+		vm.Set("v", verifNamedInt(x))
+		want = float64(x)
+	case 11:
+		x := verifNondetUint8()
+		vm.Set("v", verifNamedU8(x))
+		want = float64(x)
+	case 12:
+		x := verifNondetUint32()
+		vm.Set("v", verifNamedU32(x))
+		want = float64(x)
+	case 13:
+		x := verifNondetUint()
+		vm.Set("v", verifNamedUint(x))
 		want = float64(x)
 	default:
 		x := verifNondetUint64()
